@@ -42,7 +42,7 @@ def rfloat(rng):
 
 
 def cases(rng, tier):
-    n = 500 if tier == 'quick' else 30000
+    n = 500 if tier == 'quick' else 10000
     for _ in range(n):
         # integers print and read back
         k = rng.choice([1, -1]) * rng.randint(0, 10 ** rng.choice([1, 5, 18, 40, 300]))
@@ -85,6 +85,16 @@ def cases(rng, tier):
             yield Case(program="ㅂㄱㅎㄱ", mode='cli', tag='cli-nil', monitor='c18_exit', data=('exit', 0))
         elif c == 2:     # function applied to the command-line arguments: number of arguments / length of the first
             argv = tuple(rng.choice(["a", "bc", "가나다", "", "x y"]) for _ in range(rng.randint(1, 3)))
+            # every kind of function is applied to the command-line arguments, not only literal definitions: a pipe,
+            # a spread / collect wrapper, a built-in module function, a partially built closure returned by a call
+            for prog, want in [("ㅈㄷ ㄴㄱㅎㄴ", ('exit', len(argv[0])) if len(argv) == 1 else None),
+                               ("(ㄱㅇㄱ ㅈㄷㅎㄴ ㅎ) ㅂㅂㅎㄴ", ('exit', len(argv))),
+                               ("(ㄱㅇㄱ ㅎ) ㅎㄱ".replace("(ㄱㅇㄱ ㅎ) ㅎㄱ", "((ㄱㅇㄱ ㅈㄷㅎㄴ ㅎ) ㅎ) ㅎㄱ"), ('exit', len(argv[0]))),
+                               ("(ㄱㅇㄱ ㅈㄷㅎㄴ ㅎ) (ㄱㅇㄱ ㄴ ㄷㅎㄷ ㅎ) ㄴㄱㅎㄷ", ('exit', len(argv[0]) + 1) if len(argv) == 1 else None)]:
+                if want is None:
+                    yield Case(program=prog, mode='cli', argv=argv, tag='cli-fn-kind')
+                else:
+                    yield Case(program=prog, mode='cli', argv=argv, tag='cli-fn-kind', monitor='c18_exit', data=want)
             yield Case(program="ㄱㅇㄱ ㅈㄷㅎㄴ ㅎ", mode='cli', argv=argv, tag='cli-fn', monitor='c18_exit', data=('exit', len(argv[0])))
             yield Case(program=f"{enc(len(argv) - 1)} ㅇㄱ ㅈㄷㅎㄴ ㅎ", mode='cli', argv=argv, tag='cli-fn-last', monitor='c18_exit', data=('exit', len(argv[-1])))
         elif c == 3:     # I/O result executed: prints, then status
